@@ -73,7 +73,7 @@ PROPS = {
                 "OS-string/path targets); each derivation is run in its canonical spelling and in "
                 "random respellings of the same units in the same order (five argument spellings, "
                 "aliases, clusters, cluster ending in a short argument); outcomes of the pair are "
-                "compared, values compared byte-exact with the derivation.  One definition in twelve names an argument `-h`/`-V` like a built-in switch, one in eight names a flag `-h`; the built-in help/version switch written next to a flag (`-v -V`) and inside its cluster (`-vV`) must give the same outcome. " + DISTINCT,
+                "compared, values compared byte-exact with the derivation.  Every 64th case writes the help switch of a subcommand into a cluster where the top level uses another letter (F43), another one a `-c` / `-c=WHEN` pair of a switch and an adjacent argument. One definition in twelve names an argument `-h`/`-V` like a built-in switch, one in eight names a flag `-h`; the built-in help/version switch written next to a flag (`-v -V`) and inside its cluster (`-vV`) must give the same outcome. " + DISTINCT,
         "assumptions": COMMON_ASSUMPTIONS + [
             "Spellings the statement does not list as interchangeable are not generated: "
             "`-ab=VALUE`, `-nVALUE` with an empty value or one starting with `=`, detached values "
